@@ -116,10 +116,11 @@ CLAIMED['C03'] = {
           'from the statement (returns an API description or raises InvalidSpec with a non-empty message, an integer line and one of the '
           'input paths) is checked on a valid multi-file spec subjected to 1-3 token-level edits (delete / duplicate / swap / replace a token, '
           'change a literal kind, shift indentation, truncate, splice) -- a BOUNDED stand-in.',
-  'note': 'The bounded part found 21 distinct escape sites on the unchanged tree: 4 were repaired (fix: commits 4f1597e, 68f786a, 3666098, '
-          '70f49c3: unmatched parenthesis, end of input inside a definition, unrecoverable syntax error, misplaced contextual keyword), 17 in '
-          'ir_generator.py / data_types.py / api.py are listed as known findings, each identified by exception type and raising function '
-          '(contracts/frontend.py: escape_site) so that any other escape is still reported. Termination is not proved.',
+  'note': 'The bounded part found 28 distinct escape sites on the unchanged tree: 7 were repaired (fix: commits 4f1597e, 68f786a, 3666098, '
+          '70f49c3, 1605d5a: unmatched parenthesis, end of input inside a definition, unrecoverable syntax error, misplaced contextual '
+          'keyword, defaults of the wrong kind), 21 in ir_generator.py / data_types.py / api.py are listed as known findings, each identified '
+          'by exception type and raising function (contracts/frontend.py: escape_site) so that any other escape is still reported. '
+          'Termination is not proved.',
   'design': '7.3 (C03)',
 }
 CLAIMED['C20'] = {
